@@ -76,28 +76,54 @@ def run(chk, replay=None):
             return '{%d + %d*cos(2*t) + %d*sin(2*t) + %s*exp(-t)*u(t)}' % (rng.randint(1, 5), a, b, str(abs(v)))
         raise ValueError(kind)
 
-    for k in range(ncases):
-        base = gen_netlist.random_case(rng, analysis=rng.choice(['s', 's', 'ivp']), max_nodes=5)
-        subs = base['subs']
-        lines = []
-        srcnames = []
-        kinds_used = []
-        for ll in base['lcapy']:
-            tk = ll.split()
-            if tk[0][0] in 'VI' and tk[0][1:].isdigit():
-                kd = rng.choice(['dc', 'ac', 'step', 'exp', 'mix', 'step'])
-                if base['analysis'] == 'ivp' and kd in ('dc', 'ac', 'mix'):
-                    kd = rng.choice(['step', 'exp'])
-                ll = '%s %s %s %s' % (tk[0], tk[1], tk[2], src_expr(kd, rng))
-                srcnames.append(tk[0])
-                kinds_used.append(kd)
-            lines.append(ll)
-        if len(srcnames) < 2:
-            # add a second source in parallel with some element
-            tk = lines[-1].split()
-            lines.append('I9 %s %s %s' % (tk[1], tk[2], src_expr(rng.choice(['dc', 'step', 'exp']) if base['analysis'] != 'ivp' else 'step', rng)))
-            srcnames.append('I9')
-            kinds_used.append('extra')
+    def template(k):
+        """directed netlists: several sources / initial conditions injecting into one non-ground node, in both
+        orientations and listing orders (stamps must ACCUMULATE)"""
+        v = lambda: fs(Fraction(rng.randint(1, 9), rng.randint(1, 3)) * rng.choice([1, -1]))   # noqa
+        r = lambda: fs(Fraction(rng.randint(1, 9), rng.randint(1, 3)))   # noqa
+        t = k % 6
+        if t == 0:
+            return (['I1 0 2 step %s' % v(), 'I2 3 2 step %s' % v(), 'R1 2 3 %s' % r(), 'R2 3 0 %s' % r(), 'C1 2 0 %s' % r(), 'R3 2 0 %s' % r()], ['I1', 'I2'], 's')
+        if t == 1:
+            return (['I1 2 3 step %s' % v(), 'I2 0 3 step %s' % v(), 'I3 2 3 step %s' % v(), 'R1 2 3 %s' % r(), 'R2 3 0 %s' % r(), 'L1 2 0 %s' % r()], ['I1', 'I2', 'I3'], 's')
+        if t == 2:
+            return (['C1 2 0 %s %s' % (r(), v()), 'I1 3 2 step %s' % v(), 'R1 2 3 %s' % r(), 'R2 3 0 %s' % r(), 'V1 1 0 step %s' % v(), 'R3 1 2 %s' % r()], ['I1', 'V1'], 'ivp')
+        if t == 3:
+            return (['V1 1 0 step %s' % v(), 'R1 1 2 %s' % r(), 'C1 3 2 %s %s' % (r(), v()), 'I1 0 2 step %s' % v(), 'I2 0 3 step %s' % v(), 'R2 3 0 %s' % r(), 'L1 2 0 %s %s' % (r(), v())], ['V1', 'I1', 'I2'], 'ivp')
+        if t == 4:
+            return (['V1 1 0 dc %s' % v(), 'R1 1 2 %s' % r(), 'I1 3 2 dc %s' % v(), 'I2 3 2 {%d*exp(-t)*u(t)}' % rng.randint(1, 5), 'R2 2 3 %s' % r(), 'R3 3 0 %s' % r(), 'C1 2 0 %s' % r()], ['V1', 'I1', 'I2'], 's')
+        return (['V1 1 2 step %s' % v(), 'V2 2 0 step %s' % v(), 'I1 1 3 step %s' % v(), 'I2 0 3 step %s' % v(), 'R1 3 0 %s' % r(), 'C1 1 0 %s' % r(), 'R2 1 3 %s' % r()], ['V1', 'V2', 'I1', 'I2'], 's')
+
+    ntemplates = 6 if quick else 36
+    for k in range(ncases + ntemplates):
+        if k < ntemplates:
+            lines, srcnames, ana = template(k)
+            base = {'analysis': ana, 'subs': {}, 'lcapy': lines}
+            subs = {}
+            kinds_used = ['step' if ' step ' in l else ('dc' if ' dc ' in l else 'exp') for l in lines if l.split()[0] in srcnames]
+            chk.count('stream', 'template-%d' % (k % 6))
+        else:
+            base = gen_netlist.random_case(rng, analysis=rng.choice(['s', 's', 'ivp']), max_nodes=5)
+            subs = base['subs']
+            lines = []
+            srcnames = []
+            kinds_used = []
+            for ll in base['lcapy']:
+                tk = ll.split()
+                if tk[0][0] in 'VI' and tk[0][1:].isdigit():
+                    kd = rng.choice(['dc', 'ac', 'step', 'exp', 'mix', 'mix', 'step'])
+                    if base['analysis'] == 'ivp' and kd in ('dc', 'ac', 'mix'):
+                        kd = rng.choice(['step', 'exp'])
+                    ll = '%s %s %s %s' % (tk[0], tk[1], tk[2], src_expr(kd, rng))
+                    srcnames.append(tk[0])
+                    kinds_used.append(kd)
+                lines.append(ll)
+            if len(srcnames) < 2:
+                # add a second source in parallel with some element
+                tk = lines[-1].split()
+                lines.append('I9 %s %s %s' % (tk[1], tk[2], src_expr(rng.choice(['dc', 'step', 'exp']) if base['analysis'] != 'ivp' else 'step', rng)))
+                srcnames.append('I9')
+                kinds_used.append('extra')
         for kd in kinds_used:
             chk.count('source-kind', kd)
         chk.count('analysis', base['analysis'])
@@ -189,6 +215,37 @@ def run(chk, replay=None):
                                     'lcapy': str(t2), 'spec': 'expected %s' % (want,)}, 'scaling source %s does not scale its contribution' % sname)
         except Exception as e:   # noqa
             chk.count('lcapy-error', 'scaling:' + type(e).__name__)
+        # regrouping: a multi-kind source split into single-term sources (series V / parallel I) must give the same responses
+        try:
+            mixed = [ll for ll in lines if ll.split()[0] in srcnames and ' + ' in ll and ll.split(None, 3)[3].startswith('{')]
+            if mixed:
+                ml_ = mixed[0]
+                tk = ml_.split(None, 3)
+                terms = [x.strip() for x in tk[3][1:-1].split(' + ')]
+                l3 = [ll for ll in lines if ll != ml_]
+                if tk[0][0] == 'V':
+                    prev = tk[1]
+                    for i_, term in enumerate(terms):
+                        nxt = tk[2] if i_ == len(terms) - 1 else 'g%d_' % i_
+                        l3.append('%sg%d %s %s {%s}' % (tk[0], i_, prev, nxt, term))
+                        prev = nxt
+                else:
+                    for i_, term in enumerate(terms):
+                        l3.append('%sg%d %s %s {%s}' % (tk[0], i_, tk[1], tk[2], term))
+                c3 = lcapy.Circuit('\n'.join(l3))
+                chk.count('oracle', 'regrouping-checked')
+                for n in nodes:
+                    g3 = lap_at(c3[n].V.laplace(), sp, subs)
+                    if g3 is not None and g3 != total[n]:
+                        n_cex += 1
+                        chk.counterexample({'kind': 'regrouping', 'source_kinds': ['mix']},
+                                           {'input': {'netlist': lines, 'regrouped': l3, 's': fstr(sp), 'node': n},
+                                            'lcapy': {'one multi-kind source': str(total[n]), 'single-term sources': str(g3)},
+                                            'spec': 'the response does not depend on how the sources are grouped'},
+                                           'splitting a multi-kind source into single-term sources changes the response at node %s' % n)
+                        break
+        except Exception as e:   # noqa
+            chk.count('lcapy-error', 'regroup:' + type(e).__name__ + str(e)[:30])
         # (b) model: step-only circuits (and ivp): each source alone solved by the Lean model
         if all(kd in ('step', 'extra') for kd in kinds_used) and all(' step ' in l for l in lines if l.split()[0] in srcnames) and not subs:
             an = ('ivp %s' if base['analysis'] == 'ivp' else 's %s') % fstr(sp)
@@ -251,7 +308,8 @@ def run(chk, replay=None):
         chk.case(('dec', tuple(terms)), True)
         chk.count('decomposition', 'terms=%d' % len(terms))
         try:
-            sup = lcapy.voltage(lcapy.expr(expr)) if False else lcapy.SuperpositionVoltage(lcapy.expr(expr))
+            from lcapy.superpositionvoltage import SuperpositionVoltage
+            sup = SuperpositionVoltage(lcapy.expr(expr))
             dec = sup.decompose()
         except Exception as e:   # noqa
             chk.count('lcapy-error', 'decompose:' + type(e).__name__)
